@@ -433,14 +433,19 @@ def filter_thru(flux, waveimg=None, wset=None, mask=None,
     else:
         newwaveimg = waveimg
     logwave = np.log10(newwaveimg)
-    diffx = np.outer(np.ones((nTrace,), dtype=flux.dtype), np.arange(nx-1, dtype=flux.dtype))
+    #
+    # Band fluxes are weighted means: real numbers also for integer flux
+    # images (counts).
+    #
+    ftype = flux.dtype if flux.dtype.kind == 'f' else np.dtype('d')
+    diffx = np.outer(np.ones((nTrace,), dtype=ftype), np.arange(nx-1, dtype=ftype))
     diffy = logwave[:, 1:] - logwave[:, 0:nx-1]
     diffset = xy2traceset(diffx, diffy, ncoeff=4, xmin=0, xmax=nx-1)
     pixnorm, logdiff = traceset2xy(diffset)
     logdiff = np.absolute(logdiff)
     if mask is not None:
         flux_interp = djs_maskinterp(flux, mask, axis=0)
-    res = np.zeros((nTrace, len(ffiles)), dtype=flux.dtype)
+    res = np.zeros((nTrace, len(ffiles)), dtype=ftype)
     for i, f in enumerate(ffiles):
         filter_data = ascii.read(f, comment='#.*', names=('lam', 'respt',
                                  'resbig', 'resnoa', 'xatm'))
